@@ -10,3 +10,4 @@ import LdkModel.Props.C16
 import LdkModel.Props.C17
 import LdkModel.Props.C18
 import LdkModel.Props.C20
+import LdkModel.Props.C19
